@@ -9,51 +9,72 @@ THEOREMS = [
     'Ndn.C15.foreign_keys_off', 'Ndn.C15.triggers_closed_form', 'Ndn.C15.statements_as_modelled',
     'Ndn.C15.default_unique', 'Ndn.C15.default_exists', 'Ndn.C15.lost_only_by_deleting_default',
     'Ndn.C15.views_agree', 'Ndn.C15.views_scoped', 'Ndn.C15.del_key_cascades', 'Ndn.C15.del_identity_cascades',
-    'Ndn.C15.signer_right_key', 'Ndn.C15.no_signer_for_deleted', 'Ndn.C15.reopen_same',
+    'Ndn.C15.key_files_match', 'Ndn.C15.signer_right_key', 'Ndn.C15.no_signer_for_deleted', 'Ndn.C15.reopen_same',
+    'Ndn.C15.new_key_refused_unchanged', 'Ndn.C15.live_key_id_refused', 'Ndn.C15.unchanged_new_key_overwrites_live_key',
 ]
 PARTIAL = {
     'Ndn.C15.retry_recovers': 'not stated as a theorem: it is FALSE for the code (a failed multi-step operation is not rolled '
                               'back, see candidate_fixes/C15-failed-operation-not-rolled-back.md); the fault-injecting tier '
                               'reports each instance as a known finding. What IS proved for histories with failures: '
-                              'default_unique, default_exists, views_agree, signer_right_key, no_signer_for_deleted and the '
-                              'delete cascades of operations that return normally',
+                              'default_unique, default_exists, views_agree, key_files_match, signer_right_key, '
+                              'no_signer_for_deleted, new_key_refused_unchanged (a new_key refused with ValueError changes '
+                              'nothing, so repeating it behaves the same) and the delete cascades of operations that return '
+                              'normally',
 }
 TRUSTED = [
     'C15: sqlite statement semantics as modelled: a statement is atomic; INTEGER PRIMARY KEY rowid = max+1; unique indexes; '
     'BEFORE/AFTER INSERT/UPDATE triggers interpreted from the generated trigger table with recursive_triggers off; foreign '
     'keys off (no PRAGMA in the code); python sqlite3 implicit transactions (close without commit = rollback)',
-    'C15: the file system is abstracted to the set of key names that have a *.privkey file; a key pair is identified with its '
-    'key name (key ids are fresh random 8-byte components: collisions are not modelled; a key name generated AGAIN after its '
-    'key was deleted - explicit key_id - is a new key of the model, mapped by the harness); certificate contents are not modelled',
+    'C15: the private-key directory is a map file name -> private key; the file name of a key is fn(key name), fn a PARAMETER '
+    'of the model (theorems: for EVERY fn, no injectivity assumed - that stored key names never share a file is proved, '
+    'key_files_match; driver: the SHA-256 of the encoded NDN name, lean/NdnModel/Sha256.lean, compared with the real file '
+    'names on every run); a key pair is the number of its generation, its public key bits are identified with that number '
+    '(the harness maps key_bits columns, private-key file contents and signatures to pair numbers by the real keys); a '
+    'random key id is fresh by construction (a fresh random id equal to a STORED name is not modelled: the code redraws while '
+    'the file exists); certificate contents are not modelled',
     'C15: a storage failure is an exception raised *before* a database write / commit / TPM call takes effect; crashes inside '
     'sqlite or inside a file write are below the model',
 ]
 RULE = ('histories of 6..25 operations over 3 identity names: new/touch identity, new key (EC; RSA-2048 in the thorough tier; '
-        'unsupported type), import certificate (also under a key it is not named after, for unknown keys, duplicates), '
+        'unsupported type; 35% with an explicit key_id k1 / k2 given as str / bytes / bytearray / memoryview - also the id of '
+        'a LIVE key (refused: ValueError, nothing may change), of a DELETED key (the key name is generated again: a new key '
+        'pair under the old name), of a key of ANOTHER identity, the same ids under /i1 and /i1/i3; key_id_type sha256 / '
+        'random / unsupported, an empty key_id with a key_id_type), import certificate (also under a key it is not named '
+        'after, for unknown keys, duplicates), '
         'set default identity/key/certificate (also through a non-owner), delete certificate/key/identity (also absent '
         'ones, also via Key.del_cert), get_signer with no/identity/key/cert argument and optional explicit key locator '
-        '(each signer signs a Data packet that is verified against the key bits stored in the keychain), close/reopen; '
+        '(each signer signs a Data packet; the key PAIR that verifies it is found among all pairs ever generated and must be '
+        'the pair of the key bits the keychain holds for the selected key), close/reopen; after every operation the '
+        'snapshot also records, for every key, which pair its key bits belong to and, for every private-key file, its '
+        'name (compared with SHA-256 of the encoded key name through the model) and which pair its CONTENT belongs to; '
         'hardening: identity 3 is named UNDER identity 1 (/i1/i3); a certificate name already held by one key offered to '
         'another key; new_key / del_key through the Identity view; get_signer with every combination of identity / key / '
         'cert (+ key_locator), Identity / Key objects as well as names, each drawn independently (deleted, absent, foreign '
         'items) and judged by the documented priority cert > key > identity; directed openings (default deleted then a new '
         'item added at each level, set_default through another owner, refused operations then reopen, nested identity '
-        'deleted); 8% of histories reopen after every operation; 4% (thorough 10%) have 26..40 (..70) operations; the '
-        'oracle judges "deleted" by what was asked, so an item or a default that disappears without a delete is reported; '
+        'deleted, new_key with the id of a live key then reopen then signers by every selector); 8% of histories reopen '
+        'after every operation; 4% (thorough 10%) have 26..40 (..70) operations; the '
+        'oracle judges "deleted" by what was asked, so an item or a default that disappears without a delete is reported, '
+        'and a key whose stored bits / private-key file change without the key having been deleted is reported; '
         'thorough tier: additionally one storage failure injected at a chosen database-write/commit/TPM call of one '
         'operation which is then repeated, compared with the same history run without the failure; stream `reuse` (key '
-        'rotation that keeps the key id): a key made with an EXPLICIT key_id (k1 / k2, given as str / bytes / bytearray / '
-        'memoryview, the same ids under /i1 and /i1/i3; EC P-256 / P-384, RSA-1024 / -2048) is deleted (del_key, '
-        'Identity.del_key, del_identity) and a key is generated again under the SAME key name, with and without '
+        'rotation that keeps the key id): a key made with an EXPLICIT key_id (EC P-256 / P-384, RSA-1024 / -2048) is deleted '
+        '(del_key, Identity.del_key, del_identity) and a key is generated again under the SAME key name, with and without '
         'close/reopen in between and afterwards, then signers are requested by every selector (also with a locator used '
-        'before the deletion) - the harness treats the re-created name as a NEW key (fresh model id; references to the '
-        'deleted generation are moved to it), every signature is verified first against the key bits the store holds NOW '
-        'for each key (then against remembered bits of deleted keys), and the self-signed certificate new_key makes '
-        'must verify under the stored bits; new_key with the key id of a LIVE key is kept out of the stream (it destroys '
-        'the live key\'s private key: reported finding). Non-trivial = at '
+        'before the deletion); no signer may sign with the pair of a deleted key, and the self-signed certificate new_key '
+        'makes must verify under the stored bits. Opt-in (VERIF_C15_EXTRA=1, reported findings outside the default run): '
+        'a second handle on the same store, Identity / Key objects kept across deletes, default_cert().name as signing '
+        'argument. Non-trivial = at '
         'least two keys exist at some point and at least one delete or set-default or signer request succeeded')
 
 NIDS = 3
+MODEL_CFG = 'g'     # the model of TpmFile.generate_key as repaired ('u': the code before the repair, kept for the record)
+# Opt-in streams (VERIF_C15_EXTRA=1): reported findings that are NOT repaired in /repo and therefore stay out of the
+# default run - candidate_fixes/C15-stale-view-object-row-id-reuse.md (Identity / Key objects kept across deletes:
+# operations hi / hk / lh / gh) and candidate_fixes/C15-failed-new-key-blocks-explicit-key-id.md (a storage failure
+# injected into a new_key with an explicit / hashed key id, then the operation repeated).
+EXTRA = os.environ.get('VERIF_C15_EXTRA') == '1'
+EXTRA_OPS = ('hi', 'hk', 'lh', 'gh')
 
 
 class InjectedFault(Exception):
@@ -178,8 +199,21 @@ def extract(repo):
 #   ni i | ti i | nk i t(e/r/x) | ic key cert | sdi i | sdk i key | sdc key cert | di i | dk key | dc cert | dcv key cert
 #   gs sel loc   sel = ['d'] | ['i', i] | ['k', key] | ['c', cert];  loc = None | n | ro
 #   key = [idn, kid]   cert = [idn, kid, iss]
+#   kid = the number of the key pair (order of generation) - or, for a key whose id is not random, 'x<d>' (explicit
+#         key_id k<d>) / 'h<p>' (sha256 of the public key of pair p); a pair number is accepted for those too
+#   nk extras: 'x': [label, form] explicit key_id ('' = an empty one), 'idt': key_id_type, 'sz': key size, 'v': via Identity
+#   opt-in (EXTRA): hi slot i | hk slot key  keep the Identity / Key OBJECT in a slot;  lh slot  read the kept object as a
+#   mapping;  gh slot loc  get_signer with the kept object as signing argument
 def _op(c, *a, f=None):
     return {'c': c, 'a': list(a), 'f': f}
+
+
+def _spec(op):
+    """what Tpm.construct_key_name does with the keyword arguments: r(andom) | h (sha256) | b(ad type) | x<d> (explicit)"""
+    x = op.get('x')
+    if x and x[0]:
+        return 'x' + x[0][1:]
+    return {None: 'r', 'random': 'r', 'sha256': 'h'}.get(op.get('idt'), 'b')
 
 
 class _Mirror:
@@ -212,9 +246,10 @@ class _Mirror:
                 self.ids.add(a[0])
                 self.newkey(a[0])
         elif c == 'nk':
-            if a[0] in self.ids and a[1] != 'x' and not (op.get('x') and self.xlive(a[0], op['x'][0])):
+            sp = _spec(op)
+            if a[0] in self.ids and a[1] != 'x' and sp != 'b' and not (sp[0] == 'x' and self.xlive(a[0], op['x'][0])):
                 k = self.newkey(a[0])
-                if op.get('x'):
+                if sp[0] == 'x':
                     self.xid[k] = op['x'][0]
         elif c == 'ic':
             k, ce = a
@@ -269,7 +304,23 @@ def _gen_op(rng, m, tier):
         elif q < 0.08 and tier == 'thorough':
             t = 'r'
         o = _op('nk', goodid(), t)
-        if rng.random() < 0.2:
+        q = rng.random()
+        if q < 0.35:
+            # an explicit key id: of a live key (refused), of a deleted key (the name is generated again), of a key of
+            # another identity, or a new one - whatever the history has made of the label
+            o['x'] = [rng.choice(XLABELS), rng.choice(XFORMS)]
+            if rng.random() < 0.15:
+                o['idt'] = rng.choice(['sha256', 'md5', 'random'])      # not looked at when a key_id is given
+        elif q < 0.45:
+            o['idt'] = 'sha256'
+        elif q < 0.49:
+            o['idt'] = 'md5'
+        elif q < 0.53:
+            o['idt'] = 'random'
+        elif q < 0.56:
+            o['x'] = ['', rng.choice('sb')]                             # an EMPTY key_id counts as none
+            o['idt'] = rng.choice(['sha256', 'random', 'md5'])
+        elif rng.random() < 0.25:
             o['v'] = 1                               # through Identity.new_key
         return o
     if r < 0.40:
@@ -352,7 +403,7 @@ def _scenario(rng, m):
     kj = [j, min(k for k, o in m.keys.items() if o == j)] if any(o == j for o in m.keys.values()) else None
     if ki is None or kj is None:
         return ops
-    which = rng.randrange(6)
+    which = rng.randrange(7)
     if which == 0:      # a certificate name that already exists under another key is imported (the holder keeps two)
         add(_op('ic', ki, ki + [1]), _op('ic', kj, ki + [rng.choice([0, 1])]), _op('gs', ['k', ki], None), _op('ro'))
     elif which == 1:    # the default is deleted, then a new item is added (certificate / key / identity level)
@@ -374,8 +425,24 @@ def _scenario(rng, m):
     elif which == 4:    # refused operations (duplicate identity, duplicate certificate, unknown key) then reopen
         add(_op('ni', i), _op('ic', ki, ki + [0]), _op('ic', [i, 700], [i, 700, 1]), _op('sdk', i, kj), _op('ro'),
             _op('gs', ['i', i], None))
-    else:               # the identity nested under another one is deleted / its parent is deleted
+    elif which == 5:    # the identity nested under another one is deleted / its parent is deleted
         add(_op('ti', 3), _op('ti', 1), _op('di', rng.choice([1, 3])), _op('gs', ['i', 1], None), _op('gs', ['i', 3], None))
+    else:               # new_key with the key id of a LIVE key (refused), the store reopened or the signer cache emptied,
+        #                 then signers by every selector: the live key must still sign with its own private key
+        lab = rng.choice(XLABELS)
+        if not m.xlive(i, lab):
+            add(dict(_op('nk', i, 'e'), x=[lab, rng.choice(XFORMS)]))
+        k = [i, max(x for x, l in m.xid.items() if l == lab and m.keys.get(x) == i)]
+        if rng.random() < 0.5:
+            add(_op('gs', ['k', k], rng.choice([None, 1])))
+        for _ in range(rng.choice([1, 1, 2])):
+            t = rng.choice('eeeer')
+            add(dict(_op('nk', i, t), x=[lab, rng.choice(XFORMS)], **({'sz': 1024} if t == 'r' else {})))
+        add(_op('ro') if rng.random() < 0.6 else _op('dc', kj + [2]))
+        sels = [['k', k], ['c', k + [0]], ['i', i], ['x', i, k, None, 'k']]
+        rng.shuffle(sels)
+        for sel in sels[:rng.randint(2, 4)]:
+            add(_op('gs', sel, rng.choice([None, None, 1])))
     return ops
 
 
@@ -407,7 +474,10 @@ def cases(rng, tier):
             fault_at = rng.randint(len(ops), ln - 1) if ln > len(ops) else None
         while len(ops) < ln:
             o = _gen_op(rng, m, tier)
-            if fault_at is not None and len(ops) >= fault_at and o['c'] in NFAULT:
+            if fault_at is not None and len(ops) >= fault_at and o['c'] in NFAULT and \
+                    (EXTRA or o['c'] != 'nk' or _spec(o) == 'r'):
+                # (a failing new_key with an explicit / hashed key id leaves a private-key file that makes the repeated
+                # call refuse - reported, candidate_fixes/C15-failed-new-key-blocks-explicit-key-id.md: opt-in)
                 fault_at = None
                 f = rng.randint(0, NFAULT[o['c']] - 1)
                 ops.append(dict(o, f=f))
@@ -421,6 +491,13 @@ def cases(rng, tier):
         yield {'ops': ops}
     for _ in range(60 if tier == 'quick' else 600):
         yield _reuse_case(rng, tier)
+    if EXTRA:
+        for _ in range(120 if tier == 'quick' else 600):
+            yield _held_case(rng, tier)
+        for lab in XLABELS:
+            for f in range(NFAULT['nk'] + 1):
+                o = dict(_op('nk', 1, 'e'), x=[lab, 's'])
+                yield {'ops': [_op('ti', 1), dict(o, f=f), dict(o, retry=True), _op('gs', ['i', 1], None), _op('ro')]}
     # (the scenarios of finding F12 are fixed cases in corpus/C15/)
     if tier == 'thorough':
         # every operation kind failing at each of its fault points, followed by its repetition
@@ -525,6 +602,46 @@ def _reuse_case(rng, tier):
     return {'ops': ops}
 
 
+def _held_case(rng, tier):
+    """Identity / Key objects obtained through the API are kept while their owner is deleted and other items are created
+    (sqlite hands the row id out again), then read as mappings and used as signing arguments"""
+    m = _Mirror()
+    ops = []
+
+    def add(*os_):
+        for o in os_:
+            ops.append(o)
+            m.apply(o)
+    i, j = rng.sample([1, 2, 3], 2)
+    if rng.random() < 0.3:
+        add(_op('ti', rng.choice([1, 2, 3])))
+    add(_op('ti', i))
+    if i not in m.ids:
+        return {'ops': ops}
+    ki = [i, max(k for k, o in m.keys.items() if o == i)]
+    add(_op('hi', 0, i), _op('hk', 1, ki))
+    if rng.random() < 0.5:
+        add(_op('lh', 0), _op('gh', rng.choice([0, 1]), rng.choice([None, 1])))
+    q = rng.random()
+    if q < 0.5:
+        add(_op('di', i), _op('ti', j))
+    elif q < 0.8:
+        add(_op('dk', ki), _op('nk', i, 'e'))
+    else:
+        add(_op('di', i), _op(rng.choice(['ti', 'ni']), i))
+    if rng.random() < 0.3:
+        add(_op('ro'))
+    tail = [_op('lh', 0), _op('lh', 1), _op('gh', 0, rng.choice([None, 1])), _op('gh', 1, rng.choice([None, 2]))]
+    rng.shuffle(tail)
+    add(*tail[:rng.randint(2, 4)])
+    for _ in range(rng.randint(0, 5)):
+        o = _gen_op(rng, m, 'quick')
+        add(o)
+        if rng.random() < 0.4:
+            add(rng.choice([_op('lh', rng.choice([0, 1])), _op('gh', rng.choice([0, 1]), None)]))
+    return {'ops': ops}
+
+
 F12_CASES = [
     {'ops': [_op('ti', 1), _op('nk', 1, 'e')]},                                                  # Key.__len__
     {'ops': [_op('ti', 1), _op('ti', 2)]},                                                       # scoping of lookups
@@ -573,8 +690,18 @@ def _lab_cert(c):
     return f'{c[0]}.{c[1]}.{c[2]}'
 
 
+def _kidtok(x):
+    """'12' -> 12, 'x1' -> 'x1'"""
+    return int(x) if str(x).isdigit() else x
+
+
+def _parse_key_label(l):
+    a = l.split('.')
+    return [int(a[0]), _kidtok(a[1])]
+
+
 class _Rig:
-    """one scratch keychain + the mapping between model names and NDN names"""
+    """one scratch keychain + the mapping between model names and NDN names, key pairs and pair numbers"""
 
     def __init__(self):
         from ndn.security.keychain.keychain_sqlite3 import KeychainSqlite3
@@ -594,7 +721,9 @@ class _Rig:
         class FTpm(TpmFile):
             def generate_key(self, *a, **k):
                 rig.tick()
-                return super().generate_key(*a, **k)
+                r = super().generate_key(*a, **k)
+                rig.generated(r[0], r[1])
+                return r
 
             def get_signer(self, *a, **k):
                 rig.tick()
@@ -606,17 +735,19 @@ class _Rig:
         self.FTpm = FTpm
         self.kc = None
         self.open()
-        self.kid_of_file = {}     # file name -> kid
-        self.idn_of_kid = {}      # kid -> identity the generating operation named
-        self.key_name = {}        # kid -> (idn, FormalName)
-        self.key_bits = {}        # kid -> public key bits as first seen through the API
-        self.key_label = {}       # name bytes -> 'idn.kid'
+        self.next_kid = 0         # number of key pairs generated (= the number of the next pair)
+        self.pub_of_pair = {}     # pair -> public key bits (DER) as generate_key returned them
+        self.pair_of_pub = {}     # public key bits -> pair
+        self.name_of_pair = {}    # pair -> encoded key name it was generated for
+        self.gens = {}            # encoded key name -> how many pairs were generated under it
+        self.key_label = {}       # encoded key name -> 'idn.kid'
+        self.key_ref = {}         # 'idn.kid' -> FormalName
         self.cert_label = {}      # name bytes -> 'idn.kid.iss'
         self.cert_name = {}       # (idn,kid,iss) -> FormalName
         self.cert_data = {}
-        self.next_kid = 0
-        self.successor = {}       # kid of a deleted key -> kid of the key generated later under the SAME key name
+        self.file_cache = {}      # (file name, sha256 of content) -> pair | 'unk'
         self.badself = []         # labels of keys whose self-signed certificate does not verify under the stored key bits
+        self.xcomp = {bytes(Component.from_str('k%d' % d)): d for d in range(1, 10)}
 
     def tick(self):
         if self.armed is not None:
@@ -640,6 +771,9 @@ class _Rig:
                 rig.tick()
                 return real.commit()
 
+            def rollback(self):
+                return real.rollback()
+
             def close(self):
                 return real.close()
         self.kc.conn = Conn()
@@ -651,17 +785,82 @@ class _Rig:
         finally:
             shutil.rmtree(self.dir, ignore_errors=True)
 
+    # ---- key pairs
+    def generated(self, key_name, pub):
+        """TpmFile.generate_key has returned: a new key pair exists (its private key is in the file of key_name)"""
+        nb = bytes(self.Name.to_bytes(key_name))
+        pub = bytes(pub)
+        p = self.next_kid
+        self.next_kid += 1
+        self.pub_of_pair[p] = pub
+        self.pair_of_pub.setdefault(pub, p)
+        self.name_of_pair[p] = nb
+        self.gens[nb] = self.gens.get(nb, 0) + 1
+        if nb not in self.key_label:
+            idn = max(self.ilabel(key_name[:-2]), 0)
+            comp = bytes(key_name[-1])
+            if comp in self.xcomp:
+                tok = 'x%d' % self.xcomp[comp]
+            elif comp == bytes(self.Component.from_bytes(hashlib.sha256(pub).digest())):
+                tok = 'h%d' % p
+            else:
+                tok = p
+            self.key_label[nb] = f'{idn}.{tok}'
+            self.key_ref[f'{idn}.{tok}'] = list(key_name)
+
+    @staticmethod
+    def public_of_private(content):
+        """public key bits (DER) of the private key in a *.privkey file"""
+        from base64 import b64decode
+        from Cryptodome.PublicKey import ECC, RSA
+        der = b64decode(content)
+        try:
+            return bytes(ECC.import_key(der).public_key().export_key(format='DER'))
+        except Exception:
+            return bytes(RSA.import_key(der).publickey().export_key(format='DER'))
+
+    def file_pair(self, fname):
+        """which key pair the CONTENT of a private-key file belongs to"""
+        try:
+            content = open(os.path.join(self.tpmd, fname), 'rb').read()
+        except OSError:
+            return 'unk'
+        ck = (fname, hashlib.sha256(content).digest())
+        if ck not in self.file_cache:
+            try:
+                self.file_cache[ck] = self.pair_of_pub.get(self.public_of_private(content), 'unk')
+            except Exception:
+                self.file_cache[ck] = 'unk'
+        return self.file_cache[ck]
+
     # ---- names
     def idname(self, i):
         # identity 3 lives UNDER identity 1: names that are prefixes of each other
         return self.Name.from_str('/i1/i3' if i == 3 else f'/i{i}')
 
+    def canon(self, k):
+        """a key referred to by the number of a key pair is the key NAME that pair was generated for (which may hold
+        a later pair by now: an explicit key id used again)"""
+        idn, kid = k
+        if isinstance(kid, int) and kid in self.name_of_pair:
+            r = _parse_key_label(self.key_label[self.name_of_pair[kid]])
+            if r[0] == idn:
+                return r
+        return [idn, kid]
+
     def keyname(self, k):
         idn, kid = k
-        if kid in self.key_name and self.key_name[kid][0] == idn:
-            return self.key_name[kid][1]
-        nm = self.idname(idn) + [self.KEYC, self.Component.from_bytes(b'fab%05d' % kid)]
-        self.key_label.setdefault(bytes(self.Name.to_bytes(nm)), _lab_key(k))
+        lab = _lab_key(k)
+        if lab in self.key_ref:
+            return self.key_ref[lab]
+        if isinstance(kid, str) and kid[:1] == 'x' and kid[1:].isdigit():
+            nm = self.idname(idn) + [self.KEYC, self.Component.from_str('k' + kid[1:])]
+        elif isinstance(kid, str):
+            nm = self.idname(idn) + [self.KEYC, self.Component.from_bytes(b'fab' + kid.encode())]
+        else:
+            nm = self.idname(idn) + [self.KEYC, self.Component.from_bytes(b'fab%05d' % kid)]
+        self.key_ref[lab] = nm
+        self.key_label.setdefault(bytes(self.Name.to_bytes(nm)), lab)
         return nm
 
     def certname(self, c):
@@ -672,7 +871,8 @@ class _Rig:
                 nm = kn + [self.Component.from_str('self'), self.Component.from_version(0)]
             else:
                 nm = kn + [self.Component.from_str(f'iss{c[2]}'), self.Component.from_version(1)]
-            # a fabricated key name may later become stale if the kid gets created: names are fixed at first use
+            # the self-signed certificate of a key that does not exist (yet) gets a made-up name; when the key is
+            # generated the label is bound to the real name (learn)
             self.cert_name[t] = nm
             self.cert_label.setdefault(bytes(self.Name.to_bytes(nm)), _lab_cert(c))
         return self.cert_name[t]
@@ -680,67 +880,31 @@ class _Rig:
     def locname(self, n):
         return self.Name.from_str(f'/loc{n}')
 
-    def current(self, k):
-        idn, kid = k
-        while kid in self.successor and kid in self.key_name and self.key_name[kid][0] == idn:
-            kid = self.successor[kid]
-        return [idn, kid]
-
-    def xname_taken(self, idn, lab):
-        """is there a key, a private-key file or a certificate under the key name <identity idn>/KEY/<lab>?"""
-        nm = self.idname(idn) + [self.KEYC, self.Component.from_str(lab)]
-        kb = bytes(self.Name.to_bytes(nm))
-        if os.path.exists(os.path.join(self.tpmd, hashlib.sha256(kb).hexdigest() + '.privkey')):
-            return True
-        try:
-            return nm in self.kc[self.idname(idn)]
-        except Exception:
-            return False
-
-    # ---- learning the names of freshly generated keys
-    def learn(self, hint_idn=None):
-        files = sorted(os.listdir(self.tpmd))
-        for f in [f for f in self.kid_of_file if f not in files]:
-            del self.kid_of_file[f]       # a private-key file that is gone: the same file name may come back as a NEW key
-        for f in files:
-            if f not in self.kid_of_file:
-                self.kid_of_file[f] = self.next_kid
-                self.idn_of_kid[self.next_kid] = hint_idn
-                self.next_kid += 1
+    # ---- learning the names of the self-signed certificates of freshly generated keys
+    def learn(self):
         try:
             for iname in list(self.kc):
                 ident = self.kc[iname]
                 for kname in list(ident):
                     kb = bytes(self.Name.to_bytes(kname))
-                    fn = hashlib.sha256(kb).hexdigest() + '.privkey'
-                    kid = self.kid_of_file.get(fn)
-                    if kb in self.key_label:
-                        old = int(self.key_label[kb].split('.')[1])
-                        if kid is None or kid == old or kid in self.key_name or old not in self.key_name:
-                            continue
-                        # the key name of a deleted key has been generated again (explicit key id): a new key pair
-                        self.successor[old] = kid
-                        pre = _lab_key([self.key_name[old][0], old]) + '.'
-                        for cb in [cb for cb, l in self.cert_label.items() if l.startswith(pre)]:
-                            del self.cert_label[cb]
-                        for t in [t for t in self.cert_name if t[1] == old]:
-                            del self.cert_name[t]
-                            self.cert_data.pop(t, None)
-                    if kid is None:
+                    lab = self.key_label.get(kb)
+                    if lab is None:
                         continue
-                    idn = max(self.ilabel(kname[:-2]), 0)
-                    self.key_name[kid] = (idn, kname)
-                    self.key_label[kb] = _lab_key([idn, kid])
+                    k = _parse_key_label(lab)
                     try:
                         key = ident[kname]
-                        self.key_bits[kid] = bytes(key.key_bits)
                         for cname in list(key):
-                            if bytes(cname[-2]) == bytes(self.Component.from_str('self')):
-                                self.cert_name[(idn, kid, 0)] = cname
-                                self.cert_label[bytes(self.Name.to_bytes(cname))] = _lab_cert([idn, kid, 0])
-                                self.cert_data[(idn, kid, 0)] = bytes(key[cname].data)
+                            if bytes(cname[-2]) == bytes(self.Component.from_str('self')) and \
+                                    bytes(self.Name.to_bytes(cname[:-2])) == kb:
+                                t = (k[0], k[1], 0)
+                                cb = bytes(self.Name.to_bytes(cname))
+                                if self.cert_label.get(cb) == _lab_cert(t) and self.cert_name.get(t) == cname:
+                                    continue
+                                self.cert_name[t] = cname
+                                self.cert_label[cb] = _lab_cert(t)
+                                self.cert_data[t] = bytes(key[cname].data)
                                 if not self.verifies_data(bytes(key[cname].data), bytes(key.key_bits)):
-                                    self.badself.append(_lab_key([idn, kid]))
+                                    self.badself.append(lab)
                     except KeyError:
                         pass
         except InjectedFault:
@@ -775,9 +939,11 @@ class _Rig:
                 kw['key_size'] = op['sz']
             if op.get('x'):
                 lab, form = op['x']
-                comp = self.Component.from_str(lab)
+                comp = self.Component.from_str(lab) if lab else b''
                 kw['key_id'] = {'s': lab, 'b': bytes(comp), 'a': bytearray(comp), 'm': memoryview(bytes(comp))}[form]
-            if op.get('v'):
+            if op.get('idt'):
+                kw['key_id_type'] = op['idt']
+            if op.get('v') and not kw:
                 kc[self.idname(a[0])].new_key(kt)
             else:
                 kc.new_key(self.idname(a[0]), key_type=kt, **kw)
@@ -848,8 +1014,54 @@ class _Rig:
             self.kc = None
             self.open()
         else:
-            raise AssertionError(c)
+            return self.do_extra(op)
         return None
+
+    def do_extra(self, op):
+        """Identity / Key objects obtained earlier in the history and used later (opt-in stream)"""
+        c, a = op['c'], op['a']
+        kc = self.kc
+        if not hasattr(self, 'slots'):
+            self.slots = {}
+        if c == 'hi':
+            self.slots.pop(a[0], None)
+            self.slots[a[0]] = ('i', kc[self.idname(a[1])], a[1])
+            return None
+        if c == 'hk':
+            self.slots.pop(a[0], None)
+            self.slots[a[0]] = ('k', kc[self.idname(a[1][0])][self.keyname(a[1])], _lab_key(a[1]))
+            return None
+        kind, obj, owner = self.slots[a[0]]            # KeyError: nothing kept in the slot
+        if c == 'lh':
+            names = list(obj)
+            out = {'kind': kind, 'owner': owner, 'len': len(obj), 'in': [n in obj for n in names]}
+            if kind == 'i':
+                out['name'] = self.ilabel(obj.name)
+                out['iter'] = [self.klabel(n) for n in names]
+                out['get'] = []
+                for n in names:
+                    try:
+                        o = obj[n]
+                        out['get'].append([self.klabel(o.name), self.ilabel(o.identity)])
+                    except KeyError:
+                        out['get'].append(None)
+            else:
+                out['name'] = self.klabel(obj.name)
+                out['iter'] = [self.clabel(n) for n in names]
+                out['get'] = []
+                for n in names:
+                    try:
+                        o = obj[n]
+                        out['get'].append([self.clabel(o.name), self.klabel(o.key)])
+                    except KeyError:
+                        out['get'].append(None)
+            return ('held', out)
+        if c == 'gh':
+            args = {'identity' if kind == 'i' else 'key': obj}
+            if a[1] is not None:
+                args['key_locator'] = self.locname(a[1])
+            return ('held', {'kind': kind, 'owner': owner, 'signer': self.probe_signer(kc.get_signer(args))})
+        raise AssertionError(c)
 
     @staticmethod
     def verifies(h, sv, bits):
@@ -878,15 +1090,17 @@ class _Rig:
         except Exception:
             return False
 
-    def stored_bits(self):
-        """[(label, key bits)] as the store holds them NOW (read through the public API)"""
+    def stored_pairs(self):
+        """pairs of the key bits the store holds NOW (read through the public API)"""
         out = []
         try:
             for iname in list(self.kc):
                 ident = self.kc[iname]
                 for kname in list(ident):
                     try:
-                        out.append((self.klabel(kname), bytes(ident[kname].key_bits)))
+                        p = self.pair_of_pub.get(bytes(ident[kname].key_bits))
+                        if p is not None:
+                            out.append(p)
                     except KeyError:
                         pass
         except InjectedFault:
@@ -896,7 +1110,7 @@ class _Rig:
         return out
 
     def probe_signer(self, signer):
-        """sign a packet, find the stored public key that verifies it, read the key locator"""
+        """sign a packet, find the key PAIR that verifies it (among all pairs ever generated), read the key locator"""
         from ndn.encoding import make_data, MetaInfo, parse_data
         from Cryptodome.Hash import SHA256
         pkt = make_data(self.Name.from_str('/probe/data'), MetaInfo(), b'content', signer=signer)
@@ -906,14 +1120,10 @@ class _Rig:
             h.update(part)
         sv = bytes(sig.signature_value_buf)
         who = 'nobody'
-        # first the key bits the store holds NOW for each of its keys, then what is remembered of keys that are gone
-        now = self.stored_bits()
-        live = set(l for l, _ in now)
-        cands = now + [(_lab_key([self.key_name[kid][0], kid]), bits) for kid, bits in sorted(self.key_bits.items())
-                       if kid in self.key_name and _lab_key([self.key_name[kid][0], kid]) not in live]
-        for lab, bits in cands:
-            if self.verifies(h, sv, bits):
-                who = lab
+        now = self.stored_pairs()
+        for p in now + [p for p in sorted(self.pub_of_pair, reverse=True) if p not in now]:
+            if self.verifies(h, sv, self.pub_of_pair[p]):
+                who = p
                 break
         kl = sig.signature_info.key_locator.name if sig.signature_info.key_locator is not None else None
         if kl is None:
@@ -927,9 +1137,6 @@ class _Rig:
     # ---- observation through the public API
     def snapshot(self, uni_keys, uni_certs):
         kc = self.kc
-        # a deleted key whose NAME has been generated again cannot be probed for: its name means the new key
-        uni_keys = [k for k in uni_keys if self.current(k) == list(k)]
-        uni_certs = [c for c in uni_certs if self.current(c[:2]) == list(c[:2])]
         snap = {'len': len(kc), 'has_default': kc.has_default_identity(), 'ids': {}, 'probe': {}}
         try:
             snap['default'] = self.ilabel(kc.default_identity().name)
@@ -973,7 +1180,8 @@ class _Rig:
                     iv['keys'][self.klabel(kn)] = None       # listed but not retrievable
                     continue
                 kv = {'flag': bool(key.is_default), 'len': len(key), 'has_default': key.has_default_cert(), 'certs': {},
-                      'probe': {}, 'owner': self.ilabel(key.identity)}
+                      'probe': {}, 'owner': self.ilabel(key.identity),
+                      'pair': self.pair_of_pub.get(bytes(key.key_bits))}     # whose public key the row holds
                 try:
                     kv['default'] = self.clabel(key.default_cert().name)
                 except KeyError:
@@ -997,35 +1205,36 @@ class _Rig:
                         kv['certs'][self.clabel(cn)] = None
                 iv['keys'][self.klabel(kn)] = kv
             snap['ids'][str(self.ilabel(n))] = iv
-        files = []
-        for f in sorted(os.listdir(self.tpmd)):
-            kid = self.kid_of_file.get(f)
-            if kid is None:
-                files.append('unk')
-            elif kid in self.key_name:
-                files.append(_lab_key([self.key_name[kid][0], kid]))
-            else:
-                files.append(f'{self.idn_of_kid.get(kid)}.{kid}')
-        snap['files'] = files
+        # the private-key directory: file name -> the pair its content belongs to
+        snap['files'] = [[f, self.file_pair(f)] for f in sorted(os.listdir(self.tpmd))]
         snap['badself'] = sorted(set(self.badself))
-        snap['recreated'] = len(self.successor)
+        snap['recreated'] = sum(1 for n in self.gens.values() if n > 1)
         return snap
+
+
+def _ord_kid(x):
+    x = str(x)
+    if x.isdigit():
+        return (0, int(x))
+    if x[:1] in 'xh' and x[1:].isdigit():
+        return (1 if x[0] == 'x' else 2, int(x[1:]))
+    raise ValueError(x)
 
 
 def _ord_key(l):
     a = l.split('.')
     try:
-        return (int(a[1]), int(a[0]))
+        return _ord_kid(a[1]) + (int(a[0]),)
     except Exception:
-        return (10 ** 9, 0)
+        return (10 ** 9, 0, 0)
 
 
 def _ord_cert(l):
     a = l.split('.')
     try:
-        return (int(a[1]), int(a[0]), int(a[2]))
+        return _ord_kid(a[1]) + (int(a[0]), int(a[2]))
     except Exception:
-        return (10 ** 9, 0, 0)
+        return (10 ** 9, 0, 0, 0)
 
 
 def _dump(snap):
@@ -1040,9 +1249,11 @@ def _dump(snap):
                 ks.append(kl + '?')
                 continue
             cs = [cl + ('*' if kv['certs'][cl] else '') for cl in sorted(kv['certs'], key=_ord_cert)]
-            ks.append(f"{kl}{'*' if kv['flag'] else ''}#{kv['len']}[{','.join(cs)}]")
+            pair = kv.get('pair')
+            ks.append(f"{kl}@{'?' if pair is None else pair}{'*' if kv['flag'] else ''}#{kv['len']}[{','.join(cs)}]")
         ids.append(f"{i}{'*' if iv['flag'] else ''}#{iv['len']}({','.join(ks)})")
-    files = sorted(snap['files'], key=_ord_key)
+    files = sorted(snap['files'], key=lambda fp: (fp[1] if isinstance(fp[1], int) else 10 ** 9, fp[0]))
+    files = [f'{f[:12]}={p}' for f, p in files]
     return f"D{1 if snap['has_default'] else 0}#{snap['len']}{{{';'.join(ids)}}}T{{{','.join(files)}}}"
 
 
@@ -1086,16 +1297,17 @@ def _run_history(ops):
         trace = []
         uk, uc = [], []
         for op in ops:
-            # a reference to a key id that has not been generated yet must never become a real key later:
-            # move it out of the range of generated ids (the model gets the operation as executed)
-            op = _map_refs(op, lambda k: [k[0], k[1] + 900] if rig.next_kid <= k[1] < 900 else list(k))
-            # a key NAME that was generated again after its key had been deleted (explicit key id) can only mean the key
-            # that holds it now: references to the deleted generation are moved to its successor
-            op = _map_refs(op, rig.current)
-            if op['c'] == 'nk' and op.get('x') and rig.xname_taken(op['a'][0], op['x'][0]):
-                # KEPT OUT of the generated stream (reported): new_key with the key id of a LIVE key is refused by the
-                # database only after the private-key file of the live key has been overwritten
-                op = {k: v for k, v in op.items() if k != 'x'}
+            # a reference to a pair number that has not been generated yet must never become a real key later:
+            # move it out of the range of generated numbers (the model gets the operation as executed)
+            op = _map_refs(op, lambda k: [k[0], k[1] + 900] if isinstance(k[1], int) and rig.next_kid <= k[1] < 900
+                           else list(k))
+            # a key referred to by the number of a pair means the key NAME that pair was generated for
+            op = _map_refs(op, rig.canon)
+            if op['c'] == 'ic' and op['a'][1][2] == 0 and op['a'][0] != op['a'][1][:2] and isinstance(op['a'][1][1], str):
+                # the self-signed certificate of a key with a chosen key id, offered to ANOTHER key: kept out (its real
+                # name carries a timestamp, so the next generation of that key name has another one; the label would
+                # stand for two names)
+                op = dict(op, a=[op['a'][0], op['a'][1][:2] + [4]])
             ks, cs = _refs(op)
             for k in ks:
                 if k not in uk:
@@ -1113,30 +1325,34 @@ def _run_history(ops):
             except Exception as e:      # noqa
                 exc = type(e).__name__
             rig.armed = None
-            rig.learn(op['a'][0] if op['c'] in ('ti', 'nk') else None)
+            rig.learn()
             rec['exc'] = exc
+            if isinstance(res, tuple) and res[0] == 'held':
+                rec['held'], res = res[1], None
             rec['signer'] = res
-            for kid, (idn, _) in rig.key_name.items():
-                if [idn, kid] not in uk:
-                    uk.append([idn, kid])
-                if [idn, kid, 0] not in uc:
-                    uc.append([idn, kid, 0])
+            for lab in list(rig.key_label.values()):
+                k = _parse_key_label(lab)
+                if k not in uk:
+                    uk.append(k)
+                if k + [0] not in uc:
+                    uc.append(k + [0])
             snap = rig.snapshot(uk, uc)
             rec['snap'] = snap
             rec['dump'] = _dump(snap)
             trace.append(rec)
-        return trace
+        names = {lab: bytes(rig.Name.to_bytes(nm)).hex() for lab, nm in rig.key_ref.items()}
+        return trace, names
     finally:
         rig.close()
 
 
 def run_impl(case):
     ops = case['ops']
-    trace = _run_history(ops)
-    out = {'trace': trace}
+    trace, names = _run_history(ops)
+    out = {'trace': trace, 'names': names}
     if any(o.get('f') is not None for o in ops):
         ref_ops = [dict(o) for o in ops if o.get('f') is None]
-        out['ref'] = _run_history(ref_ops)
+        out['ref'] = _run_history(ref_ops)[0]
     return out
 
 
@@ -1150,7 +1366,7 @@ def _tok_op(o):
     if c in ('ni', 'ti', 'sdi', 'di'):
         t = f'{c}:{a[0]}'
     elif c == 'nk':
-        t = f"nk:{a[0]}:{'x' if a[1] == 'x' else 'e'}"
+        t = f"nk:{a[0]}:{'x' if a[1] == 'x' else 'e'}:{_spec(o)}"
     elif c in ('ic', 'sdc', 'dcv'):
         t = f'{c}:{_tok_key(a[0])}:{_lab_cert(a[1])}'
     elif c == 'sdk':
@@ -1166,6 +1382,8 @@ def _tok_op(o):
         t = f"gs:{s}:{'~' if loc is None else loc}"
     elif c == 'ro':
         t = 'ro'
+    elif c in EXTRA_OPS:
+        t = 'gs:i0:~'       # kept objects are not in the model: an operation that changes nothing stands in for them
     else:
         raise AssertionError(c)
     if o.get('f') is not None:
@@ -1175,18 +1393,25 @@ def _tok_op(o):
 
 def model_line(case, impl):
     ops = [r['op'] for r in impl['trace']]
-    return 'C15 ' + (';'.join(_tok_op(o) for o in ops) if ops else '.')
+    names = ','.join(f'{lab}={hx}' for lab, hx in sorted(impl['names'].items())) or '-'
+    return f'C15 {MODEL_CFG} {names} ' + (';'.join(_tok_op(o) for o in ops) if ops else '.')
 
 
 def model_obs(answer, case, impl):
     assert answer.startswith('ok'), answer
-    return answer.split()[1:]
+    out = answer.split()[1:]
+    for i, rec in enumerate(impl['trace']):
+        if rec['op']['c'] in EXTRA_OPS and i < len(out):
+            out[i] = 'X|' + out[i].split('|', 1)[1]
+    return out
 
 
 def impl_obs(impl):
     out = []
     for rec in impl['trace']:
-        if rec['exc']:
+        if rec['op']['c'] in EXTRA_OPS:
+            r = 'X'
+        elif rec['exc']:
             r = 'E:' + rec['exc']
         elif rec['signer'] is not None:
             r = f"ok={rec['signer'][0]},{rec['signer'][1]}"
@@ -1247,6 +1472,46 @@ def _views_ok(snap, homes):
     return None
 
 
+def _held_ok(h, a, prev, homes, deleted, dead_pairs):
+    """an Identity / Key object obtained earlier, read as a mapping (lh) or used as signing argument (gh)"""
+    kind, owner = h['kind'], h['owner']
+    if 'iter' in h:
+        if h['len'] != len(h['iter']) or len(set(h['iter'])) != len(h['iter']) or not all(h['in']):
+            return 'a kept view object: length, iteration and membership disagree'
+        if kind == 'i':
+            if any(kl.split('.')[0] != str(owner) for kl in h['iter']):
+                return 'a kept Identity object lists keys of another identity'
+            if any(g is None or g[0] != kl or g[1] != owner for g, kl in zip(h['get'], h['iter'])):
+                return 'a kept Identity object: lookup of a listed key fails or returns a key of another identity'
+        else:
+            if owner in deleted and h['iter']:
+                return 'a kept Key object of a deleted key lists certificates'
+            if any(owner not in homes.get(cl, ()) for cl in h['iter']):
+                return 'a kept Key object lists certificates that were not stored under its key'
+        return None
+    who, loc = h['signer']
+    if who in dead_pairs:
+        return 'get_signer with a kept object returned a signer for a deleted key'
+    if kind == 'i':
+        iv = prev['ids'].get(str(owner))
+        kv = iv['keys'].get(iv['default']) if iv and iv['default'] else None
+        if kv is None or who != kv.get('pair'):
+            return 'get_signer with a kept Identity object signs with a key that is not the default key of that identity'
+        want_cert = kv['default']
+    else:
+        if owner in deleted:
+            return 'get_signer with a kept Key object returned a signer for a deleted key'
+        iv = prev['ids'].get(owner.split('.')[0])
+        kv = iv['keys'].get(owner) if iv else None
+        if kv is None or who != kv.get('pair'):
+            return 'get_signer with a kept Key object signs with the private key of another key'
+        want_cert = kv['default']
+    want_loc = f'l{a[1]}' if a[1] is not None else ('c' + want_cert if want_cert is not None else None)
+    if want_loc is not None and loc != want_loc:
+        return 'get_signer with a kept object names a key locator other than the default certificate of the selected key'
+    return None
+
+
 def _scopes(snap):
     """scope id -> (members, [flagged members], has_default(), default() label)"""
     sc = {'K': (snap['iter'], [int(i) for i, iv in snap['ids'].items() if iv['flag']], snap['has_default'], snap['default'])}
@@ -1288,7 +1553,8 @@ def _oracle_trace(trace, check_reopen=True):
     homes = {}           # cert label -> key labels it was stored under by a successful operation (and not deleted since)
     known_ids = set()    # identities / keys seen in the store and not deleted since
     known_keys = {}      # key label -> identity
-    deleted = set()      # keys deleted by a successful delete
+    deleted = set()      # keys deleted by a successful delete (a key NAME generated again is taken out)
+    dead_pairs = set()   # the key pairs of those keys
     excused = {}         # scope -> its default was deleted and there has been none since
     prev = None
     faulted = False
@@ -1297,6 +1563,13 @@ def _oracle_trace(trace, check_reopen=True):
         c, a = op['c'], op['a']
         if op.get('f') is not None:
             faulted = True
+        if c in ('nk', 'ti') and prev is not None:
+            # a key name (explicit key id) that is generated again after its key was deleted is a new key
+            was = set(kl for iv in prev['ids'].values() for kl in iv['iter'])
+            for iv in snap['ids'].values():
+                for kl in iv['iter']:
+                    if kl not in was:
+                        deleted.discard(kl)
         # certificates stored by this operation
         for i, iv in snap['ids'].items():
             for kl, kv in iv['keys'].items():
@@ -1349,6 +1622,10 @@ def _oracle_trace(trace, check_reopen=True):
             elif c == 'dk':
                 gone = [_lab_key(a[0])]
             deleted.update(gone)
+            for iv in prev['ids'].values():
+                for kl, kv in iv['keys'].items():
+                    if kl in gone and kv and kv.get('pair') is not None:
+                        dead_pairs.add(kv['pair'])
             for cl in list(homes):
                 homes[cl] = [k for k in homes[cl] if k not in gone]
                 if not homes[cl]:
@@ -1370,8 +1647,8 @@ def _oracle_trace(trace, check_reopen=True):
                 for cl in (kv['iter'] if kv else []):
                     if any(k in deleted for k in homes.get(cl, ())):
                         return f'op {n}: certificate of a deleted key is still listed'
-        for f in snap['files']:
-            if f in deleted:
+        for f, p in snap['files']:
+            if p in dead_pairs:
                 return f'op {n}: private key of a deleted key is still in the private-key directory'
         # nothing disappears unless its deletion (or that of its owner) was asked for: the views are mappings
         if not faulted:
@@ -1418,13 +1695,22 @@ def _oracle_trace(trace, check_reopen=True):
             if judge:
                 if want_key in deleted:
                     return f'op {n}: get_signer returned a signer for a deleted key'
-                if who != want_key:
+                # the key pair whose public key the store holds for the selected key
+                wiv = prev['ids'].get(want_key.split('.')[0])
+                wkv = wiv['keys'].get(want_key) if wiv else None
+                if wkv is not None and who != wkv.get('pair'):
                     return f'op {n}: signer signs with the private key of another key than the selected one'
                 want_loc = f'l{loc}' if loc is not None else ('c' + want_cert if want_cert is not None else None)
                 if want_loc is not None and kl_seen != want_loc:
                     return f'op {n}: signer names a key locator other than the selected certificate / explicit locator'
-            if who in deleted:
+            if who in dead_pairs:
                 return f'op {n}: get_signer returned a signer for a deleted key'
+        # Identity / Key objects kept from earlier in the history are views too: consistent mappings scoped to their owner,
+        # and as signing arguments they select their owner
+        if c in ('lh', 'gh') and rec.get('held') and rec['exc'] is None and prev is not None:
+            why = _held_ok(rec['held'], a, prev, homes, deleted, dead_pairs)
+            if why:
+                return f'op {n}: {why}'
         # the signer new_key obtains for the key it has just generated (it self-signs the key's first certificate with it)
         if snap.get('badself') and not faulted:
             return (f'op {n}: the self-signed certificate new_key created is not signed with the private key of the new key '
@@ -1479,7 +1765,11 @@ def tags(case, impl):
         if o.get('v'):
             t.append('via-view:' + o['c'])
         if o['c'] == 'nk' and o.get('x'):
-            t.append('keyid-explicit:%s%s' % (o['x'][1], '' if r['exc'] else ':ok'))
+            t.append('keyid-explicit:%s%s' % (o['x'][1] if o['x'][0] else 'empty', '' if r['exc'] else ':ok'))
+        if o['c'] == 'nk' and _spec(o)[0] == 'x' and r['exc'] == 'ValueError' and o['a'][1] != 'x':
+            t.append('keyid-of-live-key-refused')
+        if o['c'] == 'nk' and (o.get('idt') or _spec(o) != 'r'):
+            t.append('keyid-spec:%s%s' % (_spec(o)[0], '' if r['exc'] else ':ok'))
         if o['c'] == 'nk' and o.get('sz') and not r['exc']:
             t.append('key-size:%s%d' % (o['a'][1], o['sz']))
         if o['c'] == 'gs' and o['a'][0][0] == 'x':
@@ -1517,14 +1807,26 @@ def finding_key(case, impl, why):
 
 
 LEVEL_TEXT = ('Lean 4 theorems over a hand-written model of KeychainSqlite3/Identity/Key + TpmFile: the SQL triggers are '
-              'interpreted from a table generated from the live INITIALIZE_SQL; invariants proved by induction over every '
-              'operation history, including histories with a storage failure injected at any database write, commit or TPM '
-              'call (at most one default per scope; a populated scope lacks a default only after its default was deleted; views '
-              'are consistent mappings scoped to their owner; delete cascades; signer uses the selected key and locator; no '
-              'signer for a deleted key; reopen preserves contents). Tied to the code on every run by differential execution of '
-              'the compiled model against the real classes on a scratch sqlite file and private-key directory.')
-LEVEL_NOTE = ('Proof is about the model of the *repaired* code (candidate_fixes/C15-*.diff); model=code is sampled, not proved. '
+              'interpreted from a table generated from the live INITIALIZE_SQL; key names with explicit / random / hashed key '
+              'ids as Tpm.construct_key_name builds them; the private-key directory as a map file name -> private key with the '
+              'file-name function a parameter (every theorem holds for EVERY such function); invariants proved by induction '
+              'over every operation history, including histories with a storage failure injected at any database write, commit '
+              'or TPM call (at most one default per scope; a populated scope lacks a default only after its default was deleted; '
+              'views are consistent mappings scoped to their owner; delete cascades; every key row has its private-key file, '
+              'holding the private key of the row\'s public key, and no two stored key names share a file; a signer signs with '
+              'the private key belonging to the key bits stored for the selected key and names the selected locator; no signer '
+              'ever holds the private key of a deleted key - also when its key name is generated again; a new_key refused with '
+              'ValueError changes nothing, and new_key with the id of a live key is refused; reopen preserves contents), plus a '
+              'kernel-evaluated counterexample for the code before the repair of TpmFile.generate_key. Tied to the code on every '
+              'run by differential execution of the compiled model against the real classes on a scratch sqlite file and '
+              'private-key directory (file names compared with SHA-256 computed by the model; key bits, file contents and '
+              'signatures mapped to key pairs by the real keys).')
+LEVEL_NOTE = ('Proof is about the model of the code as repaired in /repo; model=code is sampled, not proved. '
               'Recovery after a failed multi-step operation (retry_recovers) is false in the code and is reported as findings, '
-              'not proved.')
+              'not proved. Judged outside the statement (not generated): two KeychainSqlite3 handles open on one store at the same '
+              'time (neither a keychain operation nor close/reopen); get_signer given an ENCODED certificate / key name such as '
+              'Key.default_cert().name (it raises KeyError: a refused call, no view or signer is inconsistent). Judged inside, '
+              'reported and opt-in (VERIF_C15_EXTRA=1): Identity / Key objects kept across a delete (row ids are re-used), a '
+              'failing new_key with an explicit key id that can never be repeated.')
 TECHNIQUE = 'Lean 4 proof (statement-level invariants preserved by a state-and-exception monad, induction over histories) + model/implementation correspondence check with fault injection'
 DESIGN_REF = 'DESIGN.md section 7, C15'
